@@ -8,7 +8,8 @@ from lib import gN, gbool, glist, gopt, hexs
 
 HEADER = "From CJ Require Import Common.Base C06.Model C06.Run.\n"
 PKG = "pkg/station/lib"
-DRV = {"zz_verif_driver_test.go": "c06/c06_driver_test.go"}
+DRV = {"zz_verif_driver_test.go": "c06/c06_driver_test.go", "zz_verif_seq_driver_test.go": "c06/c06_seq_driver_test.go"}
+HEADER_SEQ = "From CJ Require Import Common.Base C06.Model C06.Run C06.ModelIngest C06.RunIngest.\n"
 
 
 def hx(s):
@@ -134,8 +135,8 @@ def py_parse_out(out):
         ip = ipaddress.ip_address(host.decode("ascii"))
     except (UnicodeDecodeError, ValueError):
         return None, "not-literal"
-    if zone and ip.version == 4:
-        return None, "not-literal"
+    if zone and (ip.version == 4 or ip.ipv4_mapped is not None):
+        return None, "zoned-ipv4"           # "1.2.3.4%eth0:80": net.Dial takes the host for a name
     return (ip, zone, int(m.group(3))), None
 
 
@@ -161,7 +162,9 @@ def v4_forms(a):
             ("::ffff:%s" % ip, True, False),
             ("::ffff:%x:%x" % ((a >> 16) & 0xffff, a & 0xffff), True, False),
             ("0:0:0:0:0:ffff:%s" % ip, True, False),
-            ("0000:0000:0000:0000:0000:FFFF:%02X%02X:%02X%02X" % tuple(b), True, False)]
+            ("0000:0000:0000:0000:0000:FFFF:%02X%02X:%02X%02X" % tuple(b), True, False),
+            ("::ffff:%s%%eth0" % ip, True, False),                       # IPv4-mapped with a zone: never a literal (fix 3ada542)
+            ("::ffff:%x:%x%%1" % ((a >> 16) & 0xffff, a & 0xffff), True, False)]
 
 
 def v6_forms(a):
@@ -247,6 +250,8 @@ def gen_cases(ctx, policies):
         if pi < len(FIXED_POLICIES) or rng.random() < 0.3:
             for s in (":80", ":0", "[]:443"):
                 add(pi, s, tag="empty-host")
+            for s in ("[::ffff:93.184.216.34%eth0]:80", "[::ffff:5db8:d822%1]:443", "[0:0:0:0:0:ffff:128.138.1.1%lo]:80"):
+                add(pi, s, tag="zoned-v4")
     per_addr_forms = 2 if quick else 5
     for pi, pol in enumerate(policies):
         v4, v6 = interesting_addrs(rng, pol)
@@ -438,7 +443,7 @@ DIAL_SCRIPT = {
     "multi.test": [{"a": ["127.0.0.3", "127.0.0.1"]}, {"a": ["127.0.0.2"]}],
     "away.test": [{"a": ["127.1.2.3"]}, {}],
 }
-DIAL_STRINGS = ["127.0.0.1:PORT", "127.0.0.2:PORT", "127.0.0.3:PORT", "127.1.2.3:PORT", "[::1]:PORT",
+DIAL_STRINGS = ["127.0.0.1:PORT", "127.0.0.2:PORT", "127.0.0.3:PORT", "127.1.2.3:PORT", "[::1]:PORT", "[::ffff:127.0.0.1%lo]:PORT",
                 "[::ffff:127.0.0.3]:PORT", "[0:0:0:0:0:0:0:1]:PORT", "rebind.test:PORT", "rebind2.test:PORT",
                 "rebind6.test:PORT", "multi.test:PORT", "away.test:PORT", "localhost:PORT", ":PORT", "[]:PORT",
                 "127.0.0.1:0PORT", "nx.test:PORT"]
@@ -449,7 +454,7 @@ def run_dial(ctx):
     cases = []
     for pi in range(len(DIAL_POLICIES)):
         strs = DIAL_STRINGS if not quick else \
-            [s for i, s in enumerate(DIAL_STRINGS) if (i + pi) % 3 == 0 or s.startswith(("rebind", ":"))]
+            [s for i, s in enumerate(DIAL_STRINGS) if (i + pi) % 3 == 0 or s.startswith(("rebind", ":", "[::ffff:127.0.0.1%"))]
         for s in strs:
             cases.append({"policy": pi, "s": hx(s), "script": DIAL_SCRIPT, "epoch": 0})
     rc, out, res = ctx.go_inpkg(".", PKG, DRV, "^TestVerifC06Dial$", {"policies": DIAL_POLICIES, "cases": cases},
@@ -679,6 +684,302 @@ def run_histories(ctx, terms):
                     ctx.fail("history/dialed-differs-from-checked", "recorder saw %s, the checked address was %s" % (x["dialed"], want), info)
 
 
+
+# ------------------------------------------------------------------ every path to the dial: operation sequences with
+# duplicates on ONE RegistrationManager, wrapping and connecting transports (TestVerifC06Seq)
+SEQ_LISTEN = ["127.0.0.1", "127.0.0.2", "127.0.0.3", "127.1.2.3"]
+SEQ_DEAD = "127.0.0.9"                   # permitted by most policies, nothing listens there
+SEQ_PBLOCK = ["192.122.190.128/25"]      # phantom blocklist: half of the generation-1 phantom subnet
+NEP = 12                                 # resolver epochs scripted per name
+
+
+def seq_script(a, f):
+    """a: an address the start policy permits, f: one it forbids (either may be None)"""
+    a = a or "127.0.0.1"
+    f = f or a
+    return {
+        "good.test": [{"a": [a]}] * NEP,
+        "bad.test": [{"a": [f]}] * NEP,
+        "flip.test": [{"a": [a]}] + [{"a": [f]}] * (NEP - 1),          # permitted at admission, forbidden ever after
+        "flop.test": [{"a": [f]}] + [{"a": [a]}] * (NEP - 1),
+        "dead.test": [{"a": [SEQ_DEAD]}] + [{"a": [f]}] * (NEP - 1),    # admitted literal does not answer; the name moves on
+        "dead2.test": [{"a": [SEQ_DEAD]}] + [{"a": [a]}] * (NEP - 1),
+        "six.test": [{"aaaa": ["::1"]}] + [{"a": [f]}] * (NEP - 1),
+    }
+
+
+def seq_kind(secret):
+    """clients 2, 3, 5 use the connecting transport; clients 4 and 5 have a phantom inside the station's phantom blocklist"""
+    return "conn" if secret in (2, 3, 5) else "wrap"
+
+
+def gen_seq(ctx):
+    rng = ctx.rng
+    quick = ctx.tier == "quick"
+    pols = list(DIAL_POLICIES)
+    hists = []
+
+    def ing(secret, covert, epoch=0, source="api", prescanned=True, live=False, conn_ok=True):
+        return {"op": "ingest", "secret": secret, "kind": seq_kind(secret), "covert": hx(covert), "source": source,
+                "prescanned": prescanned, "live": live, "conn_ok": conn_ok, "epoch": epoch}
+
+    def cin(secret, epoch=1):
+        return {"op": "connin", "secret": secret, "kind": seq_kind(secret), "epoch": epoch}
+
+    def exp(secret):
+        return {"op": "expire", "secret": secret, "kind": seq_kind(secret)}
+
+    def rel(pi):
+        return {"op": "reload", "policy": pi}
+
+    def perm_forb(pi):
+        perm = [x for x in SEQ_LISTEN if not py_blocked(pols[pi], ipaddress.ip_address(x))]
+        forb = [x for x in SEQ_LISTEN if py_blocked(pols[pi], ipaddress.ip_address(x))]
+        return perm, forb
+
+    for pi in range(len(pols)):
+        perm, forb = perm_forb(pi)
+        if not perm or not forb:
+            continue
+        a, f = rng.choice(perm), rng.choice(forb)
+        A, F = "%s:PORT" % a, "%s:PORT" % f
+        sc = seq_script(a, f)
+        # a policy under which a is forbidden (for the reload template)
+        others = [qi for qi in range(len(pols)) if py_blocked(pols[qi], ipaddress.ip_address(a))]
+        for s in (0, 2):                                   # secret 0: wrapping transport, secret 2: connecting transport
+            # T1 duplicates of a VALID registration: forbidden literal, name -> forbidden, v4-mapped forbidden literal
+            hists.append({"start": pi, "script": sc, "tag": "dup-literal", "ops": [
+                ing(s, A), ing(s, F, 1), cin(s, 2), ing(s, "bad.test:PORT", 3), cin(s, 4),
+                ing(s, "[::ffff:%s]:PORT" % f, 5), cin(s, 6), ing(s, A, 7), cin(s, 8)]})
+            # T2 names: permitted at admission, the duplicate arrives when the name points to a forbidden address
+            hists.append({"start": pi, "script": sc, "tag": "dup-name", "ops": [
+                ing(s, "flip.test:PORT", 0), ing(s, "flip.test:PORT", 1), cin(s, 2), ing(s, "good.test:PORT", 3),
+                ing(s, "nx.test:PORT", 4), cin(s, 5)]})
+            # T3 across OnReload and expiry
+            if others:
+                q = rng.choice(others)
+                hists.append({"start": pi, "script": sc, "tag": "reload", "ops": [
+                    ing(s, A), rel(q), ing(s, A, 1), ing(s, F, 1), cin(s, 2), ing(s + 1, A, 2), cin(s + 1, 3),
+                    exp(s), cin(s, 3), ing(s, A, 4), cin(s, 5), rel(pi), ing(s, A, 6), exp(s), ing(s, F, 7), cin(s, 8),
+                    exp(s), ing(s, A, 9), cin(s, 10)]})
+            # T4 duplicates BEFORE validation: the first one is dropped (live phantom / forbidden covert) and stays tracked
+            hists.append({"start": pi, "script": sc, "tag": "pre-valid", "ops": [
+                ing(s, A, 0, prescanned=False, live=True), ing(s, F, 1), ing(s, A, 2), cin(s, 3),
+                ing(s + 1, F, 3), ing(s + 1, A, 4), cin(s + 1, 5), exp(s + 1), ing(s + 1, A, 6), cin(s + 1, 7)]})
+            # T5 the admitted literal does not answer while the name has moved on
+            if not py_blocked(pols[pi], ipaddress.ip_address(SEQ_DEAD)):
+                hists.append({"start": pi, "script": sc, "tag": "dead", "ops": [
+                    ing(s, "dead.test:PORT", 0), cin(s, 1), ing(s, "dead.test:PORT", 2), cin(s, 3),
+                    ing(s + 1, "dead2.test:PORT", 0), cin(s + 1, 1)]})
+        # T6 Connect fails; detector-sourced registrations (phantom blocklist applies after the covert check)
+        hists.append({"start": pi, "script": sc, "tag": "connfail", "ops": [
+            ing(2, A, 0, conn_ok=False), ing(2, F, 1), cin(2, 2),
+            ing(3, A, 0, source="detector"), ing(3, F, 1, source="detector"), cin(3, 2),
+            ing(1, A, 0, source="detector", prescanned=False), ing(1, F, 1), cin(1, 2),
+            # phantom inside the station's phantom blocklist: from the detector it is dropped AFTER the covert check (stays tracked),
+            # over the API it never gets past validation
+            ing(5, A, 3, source="detector"), ing(5, F, 4, source="detector"), cin(5, 5), ing(4, A, 5), ing(4, F, 6), cin(4, 7)]})
+    # random sequences
+    for _ in range(10 if quick else 120):
+        pi = rng.randrange(len(pols))
+        perm, forb = perm_forb(pi)
+        a = rng.choice(perm) if perm else None
+        f = rng.choice(forb) if forb else None
+        sc = seq_script(a, f)
+        pool = ["%s:PORT" % x for x in SEQ_LISTEN] + ["good.test:PORT", "bad.test:PORT", "flip.test:PORT", "flop.test:PORT",
+                                                      "dead.test:PORT", ":PORT", "[::ffff:127.0.0.2]:PORT", "127.0.0.1:0PORT",
+                                                      "six.test:PORT", "[::1]:PORT", "localhost:PORT"]
+        ops, ep = [], 0
+        for _ in range(rng.randrange(5, 12)):
+            x = rng.random()
+            s = rng.randrange(6)
+            if x < 0.55:
+                ops.append(ing(s, rng.choice(pool), ep, source=rng.choice(["api", "api", "detector"]),
+                               prescanned=rng.random() < 0.8, live=rng.random() < 0.3, conn_ok=rng.random() < 0.85))
+            elif x < 0.8:
+                ops.append(cin(s, ep))
+            elif x < 0.9:
+                ops.append(rel(rng.randrange(len(pols))))
+            else:
+                ops.append(exp(s))
+            ep = min(ep + 1, NEP - 1)
+        hists.append({"start": pi, "script": sc, "tag": "random", "ops": ops})
+    return pols, hists
+
+
+def g_tracked(t):
+    if not t["tracked"]:
+        return "None"
+    return "(Some (%s, %s))" % (g_bytes_hex(t["covert"]), gbool(t["valid"]))
+
+
+def seq_key(op):
+    return op.get("secret", 0)
+
+
+def g_seq_case(start_dump, h, rs):
+    steps = []
+    for op, r in zip(h["ops"], rs):
+        if op["op"] == "reload":
+            steps.append("(SReload %s)" % g_policy(r["dump"]))
+        elif op["op"] == "ingest":
+            reg = "(Build_sreg %s %s %s %s %s %s)" % (gN(seq_key(op)), "Connecting" if op["kind"] == "conn" else "Wrapping",
+                                                     g_bytes_hex(r["provided"]), gbool(r["valid_in"]), gbool(r["g_live"]), gbool(r["pblock"]))
+            steps.append("(SIngest %s %s %s %s %s %s)" % (reg, gbool(op["conn_ok"]), g_oracle(r["check"]), g_tracked(r["after"]),
+                                                          glist(r["connects"], g_bytes_hex), glist(r["dialed"], lambda d: hexs(d.encode()))))
+        elif op["op"] == "connin":
+            steps.append("(SConnIn %s %s %s)" % (gN(seq_key(op)), g_tracked(r["after"]), glist(r["dialed"], lambda d: hexs(d.encode()))))
+        else:
+            steps.append("(SExpire %s %s)" % (gN(seq_key(op)), g_tracked(r["after"])))
+    return "(%s, %s)" % (g_policy(start_dump), "[" + "; ".join(steps) + "]")
+
+
+def py_endpoint(s):
+    parsed, _ = py_parse_out(s)
+    return None if parsed is None else (py_unmap(parsed[0]), parsed[1], parsed[2])
+
+
+def covert_class(pol, s):
+    """what kind of string an unchecked covert is, for the failure key"""
+    parsed, _ = py_parse_out(s)
+    if parsed is None:
+        return "name-or-unresolved"
+    return "forbidden-literal" if py_blocked(pol, parsed[0]) else "unchecked-literal"
+
+
+def run_seq(ctx):
+    import time
+    pols, hists = gen_seq(ctx)
+    tg = time.time()
+    rc, out, res = ctx.go_inpkg(".", PKG, DRV, "^TestVerifC06Seq$",
+                                {"policies": pols, "phantom_block": SEQ_PBLOCK,
+                                 "histories": [{k: h[k] for k in ("start", "ops", "script")} for h in hists]}, timeout=900)
+    if res is None or len(res.get("results", [])) != len(hists):
+        ctx.broken("driver", "Go sequence driver did not produce results: %s" % out[-800:])
+        return
+    port = res["port"]
+    ctx.cov["phase_s"]["go_seq_go"] = round(time.time() - tg, 1)
+    terms = []
+    for hi, (h, rs) in enumerate(zip(hists, res["results"])):
+        cur = h["start"]
+        admitted = {}          # key -> literal (bytes) the registration was admitted with
+        trail = ["ONE RegistrationManager, wrapping transport (clients 0,1,4) and connecting transport (clients 2,3,5); start policy %s" % pols[cur]]
+        bad_harness = False
+        for oi, (op, r) in enumerate(zip(h["ops"], rs)):
+            key, kind = seq_key(op), ("connecting" if op.get("kind") == "conn" else "wrapping")
+            if op["op"] == "reload":
+                cur = op["policy"]
+                trail.append("OnReload(%s)" % pols[cur])
+                d = r["dump"]
+                if len(d["block"]) != len(pols[cur]["block"]) or len(d["allow"]) != len(pols[cur]["allow"]) or \
+                        d["allow_on"] != bool(pols[cur]["allow"]):
+                    ctx.broken("seq/reload-not-installed", "after OnReload the lists in force are %s, configured %s" % (d, pols[cur]),
+                               {"history": list(trail)})
+                ctx.count(("seq", hi, oi), nontrivial=True, kind="seq/reload")
+                continue
+            pol = pols[cur]
+            before, after = r["before"], r["after"]
+            dials = [d.encode() for d in r["dialed"]]
+            info = {"history": None, "step": oi, "policy_in_force": pol, "script": h["script"], "recorder_port": port,
+                    "observed": {"tracked_before": dict(before, covert=unhx(before["covert"]).decode("latin1")),
+                                 "tracked_after": dict(after, covert=unhx(after["covert"]).decode("latin1")),
+                                 "handed_to_Connect": [unhx(c).decode("latin1") for c in r["connects"]],
+                                 "dialed": r["dialed"], "dns_questions_after_admission": r["dial_query"]}}
+            if r.get("panic"):
+                trail.append("%s -> panic" % op["op"])
+                info["history"] = list(trail)
+                ctx.fail("seq/panic", "step panicked: %s" % r["panic"], info)
+                bad_harness = True
+                break
+            if r.get("stuck"):
+                info["history"] = list(trail)
+                ctx.broken("seq-harness", "a hand-off or Proxy did not come to an end", info)
+            lit = admitted.get(key)
+            if op["op"] == "ingest":
+                prov = unhx(r["provided"])
+                trail.append("ingest registration: client %d (%s transport), covert %r, resolver epoch %d%s" % (
+                    key, kind, prov.decode("latin1"), op["epoch"], "" if not before["tracked"] else "  [duplicate of a tracked registration]"))
+                info["history"] = list(trail)
+                if r.get("parse_err") or r["ndrafts"] != 1:
+                    ctx.broken("seq-harness", "parseRegMessage did not yield one registration: %s" % r.get("parse_err"), info)
+                    bad_harness = True
+                    break
+                exp = unhx(r["check"]["out"])
+                if before["tracked"]:
+                    changed = prov != (lit if lit is not None else unhx(before["covert"]))
+                    ctx.count(("seq", hi, oi, pol), nontrivial=True, kind="seq/ingest-duplicate/%s/%s/%s" % (
+                        "conn" if kind == "connecting" else "wrap", "valid" if before["valid"] else "not-valid", "changed" if changed else "same"))
+                    if (after["tracked"], after["valid"], after["covert"]) != (before["tracked"], before["valid"], before["covert"]):
+                        ctx.fail("seq/%s/duplicate-changed-tracked-registration%s" % (kind, "/served" if before["valid"] or after["valid"] else ""),
+                                 "a repeated registration naming %r changed the tracked registration: it was (covert %r, valid=%s), it is "
+                                 "(covert %r, valid=%s)" % (prov, unhx(before["covert"]), before["valid"], unhx(after["covert"]), after["valid"]), info)
+                else:
+                    if after["tracked"] and after["valid"]:
+                        cov = unhx(after["covert"])
+                        ctx.count(("seq", hi, oi, pol), nontrivial=True, kind="seq/ingest-new-admitted/" + ("conn" if kind == "connecting" else "wrap"))
+                        parsed, why = py_parse_out(cov)
+                        if cov != exp or parsed is None:
+                            ctx.fail("seq/%s/admitted-covert-not-the-checked-literal" % kind, "the registration became valid with covert %r; the policy "
+                                     "function returned %r for what the client sent" % (cov, exp), info)
+                        elif py_blocked(pol, parsed[0]):
+                            ctx.fail("seq/%s/admitted-forbidden-ip" % kind, "the registration became valid with covert %r, which the policy in force forbids" % cov, info)
+                        admitted[key] = cov
+                        lit = cov
+                    else:
+                        ctx.count(("seq", hi, oi, pol), nontrivial=True, kind="seq/ingest-new-not-valid/" + (
+                            "not-tracked" if not after["tracked"] else "covert-refused" if exp == b"" else "dropped-after-check"))
+                        if exp != b"" and r["valid_in"] and not r["g_live"] and not r["pblock"]:
+                            ctx.broken("seq-harness", "covert accepted by the policy and nothing else in the way, but the registration is not valid", info)
+                for c in r["connects"]:
+                    cb = unhx(c)
+                    if lit is None or cb != lit:
+                        ctx.fail("seq/connecting/handed-unchecked-covert/" + covert_class(pol, cb),
+                                 "ConnectingTransport.Connect (and then Proxy) was handed a registration object whose covert is %r; the covert "
+                                 "admitted for this registration is %r" % (cb, lit), info)
+                if dials:
+                    ctx.cov["histogram"]["seq/connecting-dialed"] = ctx.cov["histogram"].get("seq/connecting-dialed", 0) + 1
+            elif op["op"] == "connin":
+                trail.append("a connection for client %d arrives (resolver epoch %d): lookup among valid registrations, Proxy" % (key, op["epoch"]))
+                info["history"] = list(trail)
+                ctx.count(("seq", hi, oi, pol), nontrivial=True, kind="seq/connin-" + ("dialed" if dials else "nothing"))
+                for c in r["proxied"]:
+                    cb = unhx(c)
+                    if lit is None or cb != lit:
+                        ctx.fail("seq/%s/lookup-returned-unchecked-covert/%s" % (kind, covert_class(pol, cb)),
+                                 "the lookup returned a valid registration whose covert is %r; the covert admitted for it is %r" % (cb, lit), info)
+            else:
+                trail.append("client %d's registration expires (RemoveOldRegistrations)" % key)
+                info["history"] = list(trail)
+                ctx.count(("seq", hi, oi), nontrivial=True, kind="seq/expire")
+                if after["tracked"]:
+                    ctx.broken("seq-harness", "the registration is still tracked after its forced expiry", info)
+                admitted.pop(key, None)
+                continue
+            # the dial recorder: nothing but the literal admitted for this registration may be dialled
+            for d in dials:
+                # the recorder observes a destination (address, port number), the literal is text: "127.0.0.1:0443" is 127.0.0.1 port 443
+                if lit is None or (d != lit and (py_parse_out(d)[0] is None or py_endpoint(d) != py_endpoint(lit))):
+                    parsed, _ = py_parse_out(d)
+                    forbidden = parsed is not None and py_blocked(pol, parsed[0])
+                    ctx.fail("seq/%s/dialed-%s" % (kind, "forbidden-address" if forbidden else "unchecked-address"),
+                             "the station dialled %s; %s%s" % (d.decode(), "the covert admitted for this registration is %r" % lit if lit is not None
+                                                              else "no covert was ever admitted for this registration",
+                                                              "; the policy in force forbids that address" if forbidden else ""), info)
+            if r["dial_query"] > 0:
+                ctx.fail("seq/%s/resolved-again-at-dial" % kind, "%d DNS question(s) were asked after admission (names are resolved once, at admission)"
+                         % r["dial_query"], info)
+        if not bad_harness:
+            terms.append((g_seq_case(res["start_dumps"][hi], h, rs), {"history": trail, "tag": h["tag"], "ops": h["ops"], "results": rs}))
+    ctx.sample({"seq_history": hists[0]["ops"][:3], "observed": res["results"][0][:3]})
+    mm = ctx.coq_mismatches("seq", HEADER_SEQ, [t for t, _ in terms], "chk_seq", shard=40, need_vo=["C06/RunIngest.vo"])
+    if mm:
+        ctx.cov["mismatches"] += len(mm)
+        ctx.broken("correspondence", "model C06.ModelIngest (ingest / duplicate / connecting hand-off / lookup / expiry) and the implementation "
+                   "disagree on %d operation sequence(s); first: %s" % (len(mm), terms[mm[0]][1]["history"]), terms[mm[0]][1])
+    if ctx.tier != "quick":
+        me = ctx.coq_mismatches("seqx", HEADER_SEQ, [t for t, _ in terms], "chk_seq_exact", shard=40)
+        ctx.cov["handoff_exact_mismatches"] = None if me is None else len(me)     # informational: who is connected when is not C06's subject
+
 # ------------------------------------------------------------------ main
 def run(ctx):
     ctx.assumptions += [
@@ -802,3 +1103,10 @@ def run(ctx):
     run_dial(ctx)
     ctx.cov["phase_s"]["go_dial"] = round(time.time() - t2, 1)
     ctx.require_kinds(["dial/admitted", "dial/rejected"])
+    t3 = time.time()
+    run_seq(ctx)
+    ctx.cov["phase_s"]["go_seq"] = round(time.time() - t3, 1)
+    ctx.require_kinds(["seq/ingest-new-admitted/conn", "seq/ingest-new-admitted/wrap", "seq/ingest-duplicate/conn/valid/changed",
+                       "seq/ingest-duplicate/wrap/valid/changed", "seq/ingest-duplicate/conn/not-valid/changed", "seq/connecting-dialed",
+                       "seq/connin-dialed", "seq/connin-nothing", "seq/expire", "seq/reload", "seq/ingest-new-not-valid/covert-refused",
+                       "seq/ingest-new-not-valid/dropped-after-check"])
